@@ -21,7 +21,7 @@ func BzOverRequestDead(long int, dead int, pad int) BzCase {
 	w.Bits(0x314159265359, 48)
 	w.Bits(0, 32) // stored CRC (never reached)
 	w.Bits(0, 1)
-	w.Bits(0, 24)       // origin pointer
+	w.Bits(0, 24)         // origin pointer
 	w.Bits(1<<(15-6), 16) // rows in use: 0x60..0x6f
 	w.Bits(1<<(15-1), 16) // 'a'
 	w.Bits(2, 3)          // two trees
